@@ -7,6 +7,7 @@ package main
 import (
 	"encoding/json"
 	"fmt"
+	"io"
 	"math/big"
 	"os"
 	"sort"
@@ -101,12 +102,38 @@ type runner struct {
 	mu gosync.Mutex // protects the netrun bookkeeping (not the party) in free-running mode
 }
 
+// yieldingReader makes every draw of randomness inside a round a scheduling point, so that other
+// threads can run while a round's Start() is in progress.
+type yieldingReader struct{ rd io.Reader }
+
+func (y yieldingReader) Read(p []byte) (int, error) {
+	vsched.Yield("rand.Read")
+	return y.rd.Read(p)
+}
+
 func (r *runner) fresh() {
 	nw, err := netrun.New(r.sc.Cfg)
 	if err != nil {
 		panic(err)
 	}
 	r.nw = nw
+	n := nw.Nodes[r.sc.Node]
+	if n.Rand != nil && n.Params != nil {
+		n.Params.SetRand(yieldingReader{n.Rand})
+		n.Params.SetPartialKeyRand(yieldingReader{n.Rand})
+	}
+}
+
+// snapshot: the observable right after the concurrent phase (before the rest of the transcript is delivered).
+func (r *runner) snapshot() string {
+	n := r.nw.Nodes[r.sc.Node]
+	r.nw.DeliverRaw(r.sc.Node, []byte{}, n.ID, true, "drain") // unparsable: only drains the channels
+	var em []string
+	for _, m := range n.Emitted {
+		em = append(em, fmt.Sprintf("%s>%v", m.Type, m.To))
+	}
+	sort.Strings(em)
+	return fmt.Sprintf("round=%d ends=%d em=%s", r.nw.Round(r.sc.Node), len(n.Ends), strings.Join(em, ";"))
 }
 
 func (r *runner) do(o opSpec) {
@@ -164,7 +191,7 @@ func (r *runner) finish(delivered map[int]bool) outcome {
 	var o outcome
 	o.Started = n.Started
 	o.Ends = len(n.Ends)
-	o.Errs = len(n.Errs) - 1 // minus the drain call's parse error
+	o.Errs = len(n.Errs) - 2 // minus the two drain calls' parse errors (snapshot + here)
 	if o.Errs < 0 {
 		o.Errs = 0
 	}
@@ -220,6 +247,8 @@ func sequentialOutcomes(r *runner) map[string]bool {
 			for _, o := range order {
 				r.do(o)
 			}
+			mid := r.snapshot()
+			out["MID:"+mid] = true
 			out[r.finish(deliveredSet(r.sc)).key()] = true
 		}
 	}
@@ -306,6 +335,10 @@ func explore(sc scenario, bound, maxExec int) result {
 			}
 			addV(k+"/"+sig, v, x)
 		}
+		mid := r.snapshot()
+		if !seq["MID:"+mid] {
+			addV("not-sequentially-equivalent/after-the-concurrent-calls", "when all concurrent calls have returned the party is at ["+mid+"], which no sequential order of the same calls produces", x)
+		}
 		o := r.finish(deliveredSet(sc))
 		lastKey = o.key()
 		outcomes[lastKey] = true
@@ -371,6 +404,7 @@ func scenarios(tier string, seed int64) []scenario {
 		}
 		out = append(out,
 			scenario{Name: name + "/start-vs-early-message", Cfg: cfg, Node: node, Threads: [][]opSpec{{{Kind: "start"}}, {upd(0)}}},
+			scenario{Name: name + "/start-vs-the-updates-completing-round-1", Cfg: cfg, Node: node, Threads: [][]opSpec{{{Kind: "start"}}, {upd(0)}, {upd(1)}}},
 			scenario{Name: name + "/two-updates-completing-a-round", Cfg: cfg, Node: node, Prefix: prefixAllBut2, Threads: [][]opSpec{{upd(r1 - 2)}, {upd(r1 - 1)}}},
 			scenario{Name: name + "/round-completion-vs-next-round-message-vs-WaitingFor", Cfg: cfg, Node: node, Prefix: prefixAllBut1, Threads: [][]opSpec{{upd(r1 - 1)}, {upd(r1)}, {{Kind: "waiting"}}}},
 			scenario{Name: name + "/garbage-vs-round-completion", Cfg: cfg, Node: node, Prefix: prefixAllBut1, Threads: [][]opSpec{{{Kind: "garbage", Msg: 0}}, {upd(r1 - 1)}}},
